@@ -211,7 +211,9 @@ class Interposer(object):
                         thunk()
                     except Exception:
                         pass
-                raise OSError(errno.EIO, 'injected fault at event %d (%s)' % (k, op))
+                err = OSError(errno.EIO, 'injected fault at event %d (%s)' % (k, op))
+                err.verif_event = k
+                raise err
             try:
                 return thunk()
             except BaseException as e:
